@@ -70,6 +70,8 @@ def library():
                                            [("c", [T(k)]), ("c", [T(k)])]], False, None))
     add("table-nested", lambda k: ("table", [[("cb", [("table", [[("c", [T(k)]), ("c", [T(k)])], [("c", [T(k)]), ("c", [T(k)])]], False, None)]),
                                               ("c", [T(k)])], [("c", [T(k)]), ("c", [T(k)])]], False, None))
+    add("table-sparse-last", lambda k: ("table", [[("c", [T(k)]), ("c", [T(k)])], [("c", [T(k)]), ("c", [])]], False, None))
+    add("table-sparse-all", lambda k: ("table", [[("c", [T(k)]), ("c", [])], [("c", []), ("c", [T(k)])]], False, None))
     add("pre", lambda k: ("pre", [k(), k()]))
     return L
 
@@ -77,7 +79,7 @@ def library():
 LIB = library()
 LIBNAMES = [n for n, _ in LIB]
 LIBMAP = dict(LIB)
-VARIANTS = ["plain", "html", "spaced", "compact"]
+VARIANTS = ["plain", "html", "spaced", "compact", "tight"]
 
 
 def build(names):
@@ -202,7 +204,13 @@ def render(case_or_doc, variant=None):
         doc = case_or_doc
     chunks = []
     for b in doc:
-        chunks.append("\n".join(ser_block(b, variant)))
+        chunks.append("\n".join(ser_block(b, "compact" if variant == "tight" else variant)))
+    if variant == "tight":
+        # line-level constructs follow each other without a blank line (only paragraphs need one)
+        text = chunks[0]
+        for prev, b, ch in zip(doc, doc[1:], chunks[1:]):
+            text += ("\n\n" if (prev[0] == "p" or b[0] == "p") else "\n") + ch
+        return text + "\n"
     sep = "\n\n\n" if variant == "spaced" else "\n\n"
     text = sep.join(chunks)
     return text if variant == "compact" else text + "\n"
